@@ -517,6 +517,10 @@ impl img::DiskImage for Imd {
                 let chs_list = skew::fat_blocking(deblocked_ts_list,self.heads)?;
                 let mut src_offset = 0;
                 let padded = super::quantize_block(dat, chs_list.len()*sec_size);
+                // refuse the whole block before writing any part of it
+                for [cyl,_head,_lsec] in &chs_list {
+                    self.check_user_area_up_to_cyl(*cyl, 0)?;
+                }
                 for [cyl,head,lsec] in chs_list {
                     self.check_user_area_up_to_cyl(cyl, 0)?;
                     match self.write_sector(cyl,head,lsec,&padded[src_offset..src_offset+sec_size].to_vec()) {
